@@ -283,7 +283,9 @@ func checkSettleSeq(w *World, r *Report, tm *Terms) {
 		// one auction per exploration: the loop over auctions runs its body at most once (second header entry ends the path)
 		var bad []string
 		complete, untouched := 0, 0
-		for _, o := range NewExplorer(w, tm, sr).Run(bb, 0) {
+		sx := NewExplorer(w, tm, sr)
+		sx.TrackPhi = true // transfers whose parties are selected by an earlier branch are classified per path
+		for _, o := range sx.Run(bb, 0) {
 			if o.Kind != ExitReturn {
 				continue
 			}
